@@ -38,6 +38,9 @@ def run(tier):
     from . import c08
     for ty in TYPES:
         c08.check_type(chk, F, ty, thorough=False)
+    # the Python classes expose the elementary functions under numpy spellings: each forwards to the Rust item of the same meaning
+    from . import c17
+    c17.python_wrappers(chk, set(UNARY) | {"tan", "tanh", "log"})
     chk.floor("chain rule bodies", chk.analysed.get("chain rule bodies", 0), 8)
     chk.floor("closed-form bodies", chk.analysed.get("closed-form bodies", 0), 8 * 24)
     chk.floor("derivative links", chk.analysed.get("derivative links", 0), 384)
